@@ -311,6 +311,7 @@ func Materialise(w *world.World) (*fake.Clientset, *kaifake.Clientset) {
 type waiter interface {
 	VerifInformersSynced() bool
 	VerifStatusUpdaterIdle() bool
+	VerifInFlightPods() ([]string, bool)
 }
 
 // RunCycle runs one real scheduling cycle on w (w is not modified).
@@ -333,6 +334,12 @@ func RunCycle(w *world.World, c Config, obs Observer) (res *Result, err error) {
 			return true, nil, gerr
 		}
 		pod := obj.(*corev1.Pod).DeepCopy()
+		if pod.Spec.NodeName == "" {
+			// a pod not assigned to a node has no kubelet to wait for: the API server removes it at
+			// once (grace period 0 in the pod strategy's CheckGracefulDelete), and it can never be
+			// bound afterwards
+			return false, nil, nil
+		}
 		if pod.DeletionTimestamp == nil {
 			t := metav1.NewTime(world.Epoch.Add(24 * time.Hour))
 			pod.DeletionTimestamp = &t
@@ -419,7 +426,7 @@ func RunCycle(w *world.World, c Config, obs Observer) (res *Result, err error) {
 		if i > 1000 {
 			time.Sleep(50 * time.Microsecond)
 		}
-		if time.Since(start) > 30*time.Second {
+		if time.Since(start) > 10*time.Minute {
 			return nil, fmt.Errorf("harness: informers did not sync")
 		}
 	}
@@ -460,12 +467,33 @@ func RunCycle(w *world.World, c Config, obs Observer) (res *Result, err error) {
 		real.WaitForWorkers(stopCh)
 	}
 	idleStart := time.Now()
-	for i := 0; !wt.VerifStatusUpdaterIdle(); i++ {
+	// idle = nothing in flight, or only pod updates whose pod no longer exists: their patch failed
+	// with NotFound, the updater keeps the entry but never retries it (inert)
+	idle := func() bool {
+		if wt.VerifStatusUpdaterIdle() {
+			return true
+		}
+		pods, pgs := wt.VerifInFlightPods()
+		if pgs {
+			return false
+		}
+		for _, key := range pods {
+			ns, name, ok := strings.Cut(key, "/")
+			if !ok {
+				return false
+			}
+			if _, gerr := kube.Tracker().Get(corev1.SchemeGroupVersion.WithResource("pods"), ns, name); gerr == nil {
+				return false
+			}
+		}
+		return true
+	}
+	for i := 0; !idle(); i++ {
 		runtime.Gosched()
 		if i > 1000 {
 			time.Sleep(50 * time.Microsecond)
 		}
-		if time.Since(idleStart) > 20*time.Second {
+		if time.Since(idleStart) > 10*time.Minute {
 			return nil, fmt.Errorf("harness: status updater did not become idle; api errors: %v", apiErrs)
 		}
 		apiErrMu.Lock()
@@ -526,7 +554,11 @@ func ReadBack(w *world.World, kube *fake.Clientset, kai *kaifake.Clientset) (*wo
 		return nil, err
 	}
 	for i := range brs.Items {
-		out.BindRequests = append(out.BindRequests, brs.Items[i].DeepCopy())
+		b := &brs.Items[i]
+		if w.Pod(b.Spec.PodName) != nil && out.Pod(b.Spec.PodName) == nil {
+			continue // its owner pod was deleted outright during the cycle: owner-reference GC
+		}
+		out.BindRequests = append(out.BindRequests, b.DeepCopy())
 	}
 	sort.Slice(out.BindRequests, func(i, j int) bool { return out.BindRequests[i].Name < out.BindRequests[j].Name })
 	return out, nil
